@@ -885,11 +885,13 @@ def subtotal_terms_once(ctx: Ctx, rule: str = "terms-once"):
             ctx.undecided(rule, where, u(e)[:160], "positions selected from the enumeration of the valid elements")
             continue
         it = u(gen.generators[0].iter)
-        if "_valid_elements" in it and "_ids" not in it:
+        listed = any(x in it for x in ("addend_ids", "subtrahend_ids", "_subtotal_dict", "'args'", "'positive'", "'negative'"))
+        if "_valid_elements" in it and not listed:
+            # the elements themselves, their ids, their enumeration: one item per ELEMENT either way
             ctx.held(rule, where, f"iterates over {it}: one position per element", "each element contributes at most once")
         elif dedupe:
             ctx.held(rule, where, f"iterates over {it} under a de-duplicating wrapper", "each element contributes at most once")
-        elif idname in it or "_ids" in it:
+        elif listed:
             ctx.violated(rule, where, f"one position per MENTION in {it}: {u(e)[:140]}", "one position per element (a selection of the valid elements, or de-duplicated)",
                          "an id listed twice in the insertion is summed twice: the subtotal is larger than the count of the categories it names, and its proportion can exceed 1")
         else:
